@@ -14,7 +14,7 @@ CONSTANTS N, Part, Sizes
 Wild == <<"a", "\"a b\"", "select", "from", "where", "'s'", "'s", "'\\q'", "\"", "1", "9223372036854775808",
           "99999999999999999999", "1.5", "1s", "1x", "99999999999999999999w", "true", "/r/", "/", "*", "+", "-", "=", "=~", "!",
           "and", "or", "(", ")", ",", ";", ".", "..", ":", "::", "$p", "$", "$select", "/* c */", "/* c", "-- c\n", "#", "é", "\n", "\r\n",
-          "''", "\"\"", "//", "\r", "0", "0s", "-1">>
+          "''", "\"\"", "//", "\r", "0", "0s", "-1", "/[/", "/a(/">>
 WildSet == {Wild[i] : i \in 1..Len(Wild)}
 
 Bindings == {"none", "empty", "str", "str_kw", "str_inject", "float", "float_huge", "int", "int_min", "bool_t", "bool_f",
